@@ -788,6 +788,35 @@ def prop_insert_noop_call(r, S, pid, f):
 
 
 PROPOSERS = {k[5:]: v for k, v in list(globals().items()) if k.startswith("prop_")}
+# schedule idioms: what real schedules (exo.stdlib, the apps) typically do next; part of the
+# draws follow them so that states several steps deep are reached as often as shallow ones
+FOLLOW = {
+    "inline": ["inline_window", "simplify", "inline", "reorder_stmts", "fission"],
+    "inline_window": ["simplify", "inline_window", "unroll_loop"],
+    "divide_loop": ["replace", "simplify", "unroll_loop", "reorder_loops", "stage_mem", "fission", "divide_loop", "lift_scope", "parallelize_loop"],
+    "divide_with_recompute": ["simplify", "stage_mem", "reorder_loops", "fission"],
+    "stage_mem": ["simplify", "inline_window", "unroll_loop", "set_memory", "replace", "lift_alloc", "divide_loop", "fission", "resize_dim"],
+    "fission": ["reorder_loops", "fuse", "remove_loop", "fission", "replace", "lift_scope", "unroll_loop"],
+    "bind_expr": ["expand_dim", "lift_alloc", "fission", "set_memory", "set_precision"],
+    "expand_dim": ["lift_alloc", "fission", "resize_dim", "divide_dim", "unroll_buffer"],
+    "lift_alloc": ["fission", "expand_dim", "reuse_buffer", "sink_alloc", "resize_dim"],
+    "write_config": ["call_eqv", "delete_config", "reorder_stmts", "fission", "bind_config"],
+    "bind_config": ["delete_config", "call_eqv", "reorder_stmts", "write_config"],
+    "delete_config": ["call_eqv", "write_config"],
+    "extract_subproc": ["inline", "call_eqv", "replace", "simplify"],
+    "replace": ["inline", "call_eqv", "simplify", "replace"],
+    "cut_loop": ["join_loops", "shift_loop", "unroll_loop", "fuse", "simplify", "eliminate_dead_code"],
+    "shift_loop": ["simplify", "cut_loop", "join_loops", "fuse"],
+    "unroll_loop": ["simplify", "merge_writes", "reorder_stmts", "unroll_buffer", "inline_assign", "fold_into_reduce"],
+    "specialize": ["eliminate_dead_code", "simplify", "lift_scope", "fuse"],
+    "lift_scope": ["fission", "eliminate_dead_code", "specialize", "reorder_loops", "fuse"],
+    "reorder_loops": ["fission", "lift_scope", "stage_mem", "divide_loop", "parallelize_loop", "fuse"],
+    "add_loop": ["remove_loop", "fuse", "reorder_loops", "unroll_loop"],
+    "fuse": ["fission", "inline_assign", "merge_writes", "resize_dim", "reuse_buffer", "delete_buffer", "sink_alloc"],
+    "mult_loops": ["divide_loop", "simplify"],
+    "resize_dim": ["simplify", "stage_mem", "reuse_buffer", "unroll_buffer"],
+    "simplify": ["eliminate_dead_code", "replace", "fold_into_reduce", "merge_writes"],
+}
 SEM_EXCLUDED_OPS = {"add_unsafe_guard", "make_instr"}
 # ops whose results are the second element of a tuple etc.
 TUPLE_OPS = {"extract_subproc"}
@@ -822,6 +851,8 @@ class Session:
         self.other_props = {}
         self.all_viols = []
         self.cache_seen = {}
+        self.fwd_memo = {}
+        self.cursors = []
         self.cur_kw = {}
         self.unprintable = None
 
@@ -953,8 +984,49 @@ class Session:
 
     # -- purity ---------------------------------------------------------- #
 
+    @staticmethod
+    def cursor_snapshot(cur):
+        """Plain-data view of a public cursor: which procedure, which location, and
+        (for nodes) which IR object it resolves to."""
+        impl = cur._impl
+        base = (type(cur).__name__, id(cur._proc) if hasattr(cur, "_proc") else None, id(impl._root))
+        try:
+            if isinstance(impl, IC.Node):
+                return base + ("node", tuple(map(tuple, impl._path)), id(IC.Node(impl._root, list(impl._path))._node))
+            if isinstance(impl, IC.Gap):
+                return base + ("gap", tuple(map(tuple, impl._anchor._path)), str(impl._type))
+            if isinstance(impl, IC.Block):
+                return base + ("block", tuple(map(tuple, impl._anchor._path)), impl._attr, impl._range.start, impl._range.stop)
+        except Exception as e:  # a path that no longer resolves in its OWN procedure
+            return base + ("unresolvable", type(e).__name__)
+        return base + ("other",)
+
+    def remember_cursors(self, args):
+        from exo.API_cursors import Cursor
+
+        def rec(a):
+            if isinstance(a, Cursor):
+                if len(self.cursors) < 80 and hasattr(a, "_impl"):
+                    self.cursors.append((a, self.cursor_snapshot(a)))
+            elif isinstance(a, (list, tuple)):
+                for x in a:
+                    rec(x)
+
+        rec(args)
+
+    def check_cursors(self, when, op):
+        for i, (cur, snap) in enumerate(self.cursors):
+            now = self.cursor_snapshot(cur)
+            self.probes.hit("pure_cursor_checked")
+            if now != snap:
+                self.cursors[i] = (cur, now)
+                self.violate("C07", "cursor-mutated", f"a cursor obtained earlier changed {when} {op}: {snap[3:]} became {now[3:]}", op)
+                return
+
     def check_pure(self, when, op, with_str=False):
         from .oracles.fingerprint import cache_snapshot
+
+        self.check_cursors(when, op)
 
         for cn, pname in cache_snapshot(self.cache_seen):
             self.violate(
@@ -1016,6 +1088,8 @@ class Session:
             return
         kw = dict(rec.get("kw") or {})
         self.cur_kw = kw
+        if self.checks.get("pure"):
+            self.remember_cursors(args)
         call = lambda: op(p, *[list(a) if isinstance(a, list) else a for a in args], **kw)  # noqa: E731
         fault = rec.get("fault")
         unsafe = name in SEM_EXCLUDED_OPS or any(k.startswith("unsafe") and v for k, v in kw.items())
@@ -1039,6 +1113,10 @@ class Session:
 
         if self.checks.get("pure"):
             self.check_pure("after", name)
+        # C06: a call that failed (or was interrupted and retried) leaves the forwarding
+        # functions created by earlier operations unchanged
+        if self.checks.get("fwd") and (out[0] != "ret" or fault) and self.parent.get(pid) is not None:
+            self.check_fwd_stable(name, pid, bool(fault))
         # implicit = explicit forwarding (C06 item 4)
         if rec.get("stale") and self.checks.get("fwd") and not fault:
             self.check_implicit_explicit(name, op, p, args, kw, out)
@@ -1065,6 +1143,7 @@ class Session:
             self.tainted.add(rec["out"])
         if self.checks.get("fwd"):
             self.check_fwd(name, pid, rec["out"])
+            self.fwd_memo_for(rec["out"])
         if self.checks.get("valid"):
             from .oracles.validator import validate, binder_kind
 
@@ -1244,10 +1323,15 @@ class Session:
             hops.append(q)
             q = self.parent.get(q)
         for hop, src in enumerate(hops):
+            soft = []
             vs = check_forwarding(
                 self.procs[src], self.procs[pid_out], self.probes, max_stmts=120,
-                want_gaps=(hop == 0), want_blocks=(hop == 0), chain=[self.procs[q] for q in hops[:hop]],
+                want_gaps=(hop == 0), want_blocks=(hop == 0), chain=[self.procs[q] for q in hops[:hop]], soft=soft,
             )
+            for sv in soft[:1]:
+                self.probes.hit(f"soft_{sv['sig']}:{name}")
+                if self.data.get("soft_log") is not None:
+                    self.data["soft_log"].append((name, sv["sig"], sv["detail"]))
             if vs and hop > 0:
                 # only what this step introduced: cursors whose forwarding to the
                 # input procedure was already wrong were reported at that step
@@ -1270,6 +1354,37 @@ class Session:
                 )
                 break
 
+    def fwd_memo_for(self, pid):
+        from .oracles.forwarding import forward_map
+
+        if pid not in self.fwd_memo:
+            hops = []
+            q = self.parent.get(pid)
+            while q is not None and len(hops) < 3:
+                hops.append(q)
+                q = self.parent.get(q)
+            self.fwd_memo[pid] = {h: forward_map(self.procs[h], self.procs[pid]) for h in hops}
+        return self.fwd_memo[pid]
+
+    def check_fwd_stable(self, name, pid, faulted):
+        from .oracles.forwarding import forward_map
+
+        memo = self.fwd_memo.get(pid)
+        if memo is None:
+            return
+        for h, before in memo.items():
+            now = forward_map(self.procs[h], self.procs[pid])
+            self.probes.hit("fwd_stability_checked")
+            if now != before:
+                d = next(((a, b) for a, b in zip(before, now) if a != b), (None, None))
+                self.violate(
+                    "C06", "forwarding-changed-by-failed-call",
+                    f"after {'an interrupted' if faulted else 'a rejected'} {name} on {pid}, forwarding {h} -> {pid} differs: "
+                    f"{d[0]} became {d[1]}", name,
+                )
+                self.fwd_memo[pid][h] = now
+                break
+
     def check_implicit_explicit(self, name, op, p, args, kw, out):
         from exo.API_cursors import Cursor
 
@@ -1289,6 +1404,11 @@ class Session:
                 out2 = ("ret", op(p, *ex_args, **kw))
             except Exception as e:
                 out2 = ("exc", e)
+        if _solver_unknown(out) or _solver_unknown(out2):
+            # z3 answered `unknown` in one of the two executions: outcome of an incomplete
+            # external prover, not of forwarding (same rule as the retry oracle)
+            self.probes.hit("implicit_explicit_skipped_solver_unknown")
+            return
         s1, s2 = self.outcome_sig(out), self.outcome_sig(out2)
         self.probes.hit("implicit_explicit_compared")
         if s1[0] != s2[0] or (s1[0] != "exc" and s1 != s2):
@@ -1488,6 +1608,11 @@ def generate_and_run(seed: int, cfg: dict, log_keep=False) -> dict:
     live = ["p"]
     k = 0
     wl = [weights.get(o, 1.0) for o in ops_allowed]
+    affinity_rate = cfg.get("affinity_rate", 0.4)
+    follow_rate = cfg.get("follow_rate", 0.35)
+    last_ok = None
+    affine = sorted({o for m in picked for o in gen_prog.G.AFFINITY.get(m, ()) if o in ops_allowed and o in PROPOSERS})
+
     def run_rec(rec):
         data["ops"].append(rec)
         S.apply(rec)
@@ -1539,7 +1664,6 @@ def generate_and_run(seed: int, cfg: dict, log_keep=False) -> dict:
             if S.viol and not cfg.get("survey"):
                 break
             continue
-        name = r_ops.choices(ops_allowed, wl)[0]
         feat = Feat(S.procs[pid]._loopir_proc)
         stale = False
         src_pid = pid
@@ -1551,13 +1675,27 @@ def generate_and_run(seed: int, cfg: dict, log_keep=False) -> dict:
             feat = Feat(S.procs[anc]._loopir_proc)
             src_pid = anc
             stale = True
-        try:
-            prop = PROPOSERS[name](r_ops, S, src_pid, feat)
-        except Exception as e:
-            S.probes.hit("proposer_error_" + name)
-            prop = None
-        if prop is None:
+        prop = None
+        for _try in range(4):
+            # part of the ops are drawn from the primitives whose side conditions the
+            # program's motifs exercise (gen_prog.G.AFFINITY); a primitive without a
+            # target in this procedure is re-drawn a few times
+            fol = [o for o in FOLLOW.get(last_ok, ()) if o in ops_allowed] if _try == 0 else []
+            if fol and pid == live[-1] and r_ops.random() < follow_rate:
+                name = r_ops.choice(fol)
+            elif affine and r_ops.random() < affinity_rate:
+                name = r_ops.choice(affine)
+            else:
+                name = r_ops.choices(ops_allowed, wl)[0]
+            try:
+                prop = PROPOSERS[name](r_ops, S, src_pid, feat)
+            except Exception as e:
+                S.probes.hit("proposer_error_" + name)
+                prop = None
+            if prop is not None:
+                break
             S.probes.hit("no_candidate")
+        if prop is None:
             continue
         args, kw = prop
         k += 1
@@ -1569,6 +1707,7 @@ def generate_and_run(seed: int, cfg: dict, log_keep=False) -> dict:
         S.apply(rec)
         if rec["out"] in S.procs and S.root_pid(rec["out"]) == "p":
             live.append(rec["out"])
+            last_ok = name
         if S.viol and not cfg.get("survey"):
             break
     if S.checks.get("pure") and S.viol is None:
